@@ -121,7 +121,7 @@ CHECKS = {
     "C17": dict(
         text="Same runs as C16, completeness clause: the multiset of query projections returned must equal the brute-force "
              "multiset (every solution exactly once per disjunct), under every simulated propagation/labeling order. "
-             "Not covered: FD variables inside compound query terms (compounds are not generated; C20 is not applicable here).",
+             "Query terms include #[compound] terms of FD variables around, inside and next to lists. One case in six runs as the body of a dfs block (depth-first conde, bind_dfs).",
         design="7 (C16/C17), 4 (R3), 1 (N1)",
         technique="deterministic simulation: seeded constraint wake-up/labeling order (container seam) + yields, brute-force completeness/multiplicity oracle",
     ),
@@ -130,7 +130,10 @@ CHECKS = {
              "pending constraints: final operand values must satisfy integer arithmetic (all ground -> equation holds; two "
              "ground -> third bound unless every integer works), a failing program must have no solution in a brute-force "
              "window, never a panic. The order dependence is N1 (several pending constraints woken by one binding); the rest "
-             "of the property is input-driven and is sampled by the same generator.",
+             "of the property is input-driven and is sampled by the same generator. A third of the programs bind a variable through "
+             "the clauses of a conde (choice bindings: constraints posted before it are resumed once per branch; every answer must "
+             "lie on one path and every path without an answer must be unsolvable), a quarter post disequalities (some redundant, "
+             "so the store normalises while Z constraints wait in it), one case in eight runs inside a dfs block.",
         design="7 (C19), 1 (N1)",
         technique="deterministic simulation: seeded wake-up order of pending constraints + posting-order permutations, integer-arithmetic oracle",
     ),
